@@ -405,3 +405,51 @@ pub fn ring_ws(rng: &mut Rng) -> WsSpec {
     rng.shuffle(&mut files);
     WsSpec { files, ..Default::default() }
 }
+
+/// The repository's own `tests/test_project` as a fixed real-world corpus (files verbatim).
+pub fn corpus_spec() -> WsSpec {
+    fn walk(base: &Path, dir: &Path, out: &mut Vec<PyFile>) {
+        let Ok(rd) = std::fs::read_dir(dir) else { return };
+        let mut entries: Vec<PathBuf> = rd.flatten().map(|e| e.path()).collect();
+        entries.sort();
+        for p in entries {
+            if p.is_dir() {
+                if p.file_name().and_then(|n| n.to_str()).map(|n| n.starts_with('.') || n == "__pycache__").unwrap_or(false) {
+                    continue;
+                }
+                walk(base, &p, out);
+            } else if p.extension().and_then(|e| e.to_str()) == Some("py") {
+                if let Ok(text) = std::fs::read_to_string(&p) {
+                    let rel = p.strip_prefix(base).unwrap().to_string_lossy().to_string();
+                    out.push(PyFile { rel, items: vec![Item::Raw { text }] });
+                }
+            }
+        }
+    }
+    let base = PathBuf::from(super::REPO_PATH).join("tests/test_project");
+    let mut files = vec![];
+    walk(&base, &base, &mut files);
+    WsSpec { files, ..Default::default() }
+}
+
+/// Import diamond: a/conftest imports left and right, both import common, common imports deep;
+/// b/conftest imports only right.  Memoising a walk that was cut by `visited` goes wrong here.
+pub fn diamond_ws(rng: &mut Rng) -> WsSpec {
+    let star = |m: &str| Item::Star { module: m.to_string(), target: Some(format!("{}.py", m)) };
+    let fx = |n: &str| Item::Fixture(Fx { func: n.to_string(), ..Default::default() });
+    let mut files = vec![
+        PyFile { rel: "m_deep.py".into(), items: vec![fx("deep_fx")] },
+        PyFile { rel: "m_common.py".into(), items: vec![star("m_deep"), fx("common_fx")] },
+        PyFile { rel: "m_left.py".into(), items: vec![star("m_common"), fx("left_fx")] },
+        PyFile { rel: "m_right.py".into(), items: vec![star("m_common"), fx("right_fx")] },
+        PyFile { rel: "a/conftest.py".into(), items: vec![star("m_left"), star("m_right")] },
+        PyFile { rel: "b/conftest.py".into(), items: vec![star("m_right")] },
+    ];
+    for d in ["a", "b"] {
+        let mut params: Vec<String> = vec!["deep_fx".into(), "common_fx".into(), "right_fx".into(), "left_fx".into()];
+        rng.shuffle(&mut params);
+        files.push(PyFile { rel: format!("{}/test_{}.py", d, d), items: vec![Item::Test(Tst { name: "test_diamond".into(), params, usefixtures: vec!["deep_fx".into()], ..Default::default() })] });
+    }
+    rng.shuffle(&mut files);
+    WsSpec { files, ..Default::default() }
+}
